@@ -7,12 +7,16 @@
 
    FULL statement of the property (kept visible): for EVERY agreeing state, operation and failure point, a change that
    fails leaves the state Equiv to the one before, and every settled change ends in an agreeing state.
-   It is FALSE of the faithful model and of the real code in four classes (KNOWN_FINDINGS, each reproduced through the
+   It is FALSE of the faithful model and of the real code in three classes (KNOWN_FINDINGS, each reproduced through the
    driver on every run); `excluded s o f` is exactly those classes and guards the theorems:
-     - disconnect/forget task failing in a security setup call after repo.Disconnect        (finding 8)
-     - connect task failing in its SECOND security setup call (slot snap's profile is stale)
+     - a connect OR disconnect task failing in its SECOND security setup call: repository and conns are rolled back, but
+       the profile of the snap whose setup already ran is not regenerated (connect: slot snap's profile has a connection
+       that does not exist; disconnect: plug snap's profile lacks a connection that exists)
      - undo of a connect that overwrote a hotplug-gone entry
-     - undo of forgetting an inactive connection *)
+     - undo of forgetting an inactive connection
+   A fourth class (finding 8: a disconnect task failing in a security setup after repo.Disconnect left the repository
+   without the connection) was repaired in /repo by commit 63d7dd9; it is no longer excluded, see
+   C22_disconnect_setup_failure_restores and C22_disconnect_first_setup_failure_restores. *)
 From Coq Require Import List NArith Bool.
 Import ListNotations.
 Require Import V.models.Conns V.proofs.ConnsProofs.
@@ -36,19 +40,28 @@ Theorem C22_reload_agree : forall c, NoDup (map fst c) -> Agree (mkSt c (reload 
 Proof. exact reload_agree. Qed.
 Print Assumptions C22_reload_agree.
 
-(* the unguarded statement is false: finding 8 (active connection, the disconnect task's first setup call fails) *)
-Theorem C22_disconnect_setup_failure_refuted :
-  exists s o f, Agree s /\ snd (run_change s o f) = true /\ ~ Equiv (fst (fst (run_change s o f))) s.
-Proof. exact disconnect_setup_failure_refuted. Qed.
-Print Assumptions C22_disconnect_setup_failure_refuted.
-
-(* ... what IS kept in that class: the persisted conns are untouched; the repository lost exactly that connection *)
-Theorem C22_disconnect_setup_failure_partial : forall s id forget ad bh k c, (k = 1 \/ k = 2) ->
+(* former finding 8, repaired by /repo commit 63d7dd9: a disconnect / forget task failing in ANY of its security setup calls
+   fails the change, leaves persisted conns untouched and the repository exactly as it was *)
+Theorem C22_disconnect_setup_failure_restores : forall s id forget ad bh k c, (k = 1 \/ k = 2) ->
   mem id (s_repo s) = true -> lookup (s_conns s) id = Some c ->
-  let s' := fst (fst (run_change s (ODisconnect id forget ad bh) (FailMain k))) in
-  s_conns s' = s_conns s /\ forall x, mem x (s_repo s') = negb (id =? x) && mem x (s_repo s).
-Proof. exact disconnect_setup_failure_keeps_conns. Qed.
-Print Assumptions C22_disconnect_setup_failure_partial.
+  let r := run_change s (ODisconnect id forget ad bh) (FailMain k) in
+  snd r = true /\ s_conns (fst (fst r)) = s_conns s /\ forall x, mem x (s_repo (fst (fst r))) = mem x (s_repo s).
+Proof. exact disconnect_setup_failure_restores. Qed.
+Print Assumptions C22_disconnect_setup_failure_restores.
+
+(* ... and when the FIRST setup call fails, profiles included (instance of C22_failed_change_restores: not excluded any more) *)
+Theorem C22_disconnect_first_setup_failure_restores : forall s id forget ad bh, Agree s ->
+  snd (run_change s (ODisconnect id forget ad bh) (FailMain 1)) = true ->
+  Equiv (fst (fst (run_change s (ODisconnect id forget ad bh) (FailMain 1)))) s.
+Proof. exact disconnect_first_setup_failure_restores. Qed.
+Print Assumptions C22_disconnect_first_setup_failure_restores.
+
+(* the unguarded statement is still false when the SECOND setup call of a disconnect task fails: the plug snap's profile was
+   regenerated without the connection that the rollback puts back *)
+Theorem C22_disconnect_second_setup_failure_refuted :
+  exists s o f, Agree s /\ snd (run_change s o f) = true /\ ~ Equiv (fst (fst (run_change s o f))) s.
+Proof. exact disconnect_second_setup_failure_refuted. Qed.
+Print Assumptions C22_disconnect_second_setup_failure_refuted.
 
 Theorem C22_connect_setup_failure_refuted :
   exists s o f, Agree s /\ snd (run_change s o f) = true /\ ~ Equiv (fst (fst (run_change s o f))) s.
